@@ -1,8 +1,8 @@
 CONSTANTS
   RaiseOnV6 = FALSE
-  RaiseOnUnicode = TRUE
+  RaiseOnUnicode = FALSE
   BlockInverted = FALSE
   CaseSensitive = FALSE
-  StripOnValidate = FALSE
+  StripOnValidate = TRUE
 SPECIFICATION Spec
 CHECK_DEADLOCK FALSE
